@@ -245,8 +245,9 @@ func (t *TS) RunEntry(fn *ssa.Function) {
 	t.budget = 200000
 	st := &State{G: &Global{Txns: map[string]TxnSt{}, Cells: map[string]AV{}}, Env: map[ssa.Value]AV{}}
 	var eargs []AV
+	rq := requestParam(fn)
 	for _, p := range fn.Params {
-		if p.Name() == "args" {
+		if p == rq {
 			eargs = append(eargs, AV{K: KArg, Cell: ""})
 		} else {
 			eargs = append(eargs, top)
@@ -261,6 +262,7 @@ func (t *TS) RunEntry(fn *ssa.Function) {
 type outcome struct {
 	G       *Global
 	results []AV
+	tags    []*AV // result tags (commit / step results) travelling with the returned values
 	ret     *ssa.Return
 }
 
@@ -483,14 +485,24 @@ func (t *TS) execFn(fn *ssa.Function, args []AV, binds []AV, s *State) []outcome
 			switch x := last.(type) {
 			case *ssa.Return:
 				var res []AV
+				var tags []*AV
+				tkey := ""
 				for _, r := range x.Results {
 					res = append(res, t.eval(cs, r))
+					if tag, ok := cs.G.Cells[resKey(r, -1)]; ok {
+						tg := tag
+						tags = append(tags, &tg)
+						tkey += tg.key()
+					} else {
+						tags = append(tags, nil)
+						tkey += "-"
+					}
 				}
 				if len(t.stack) > 1 {
 					pruneLocals(cs.G, fn)
 				}
-				o := outcome{G: cs.G, results: res, ret: x}
-				ok := o.G.key() + "/" + AV{K: KTuple, Tup: res}.key() + fmt.Sprint(x.Pos())
+				o := outcome{G: cs.G, results: res, tags: tags, ret: x}
+				ok := o.G.key() + "/" + AV{K: KTuple, Tup: res}.key() + tkey + fmt.Sprint(x.Pos())
 				if !outKeys[ok] {
 					outKeys[ok] = true
 					outs = append(outs, o)
@@ -1116,6 +1128,16 @@ func (t *TS) call(s *State, call *ssa.Call) []*State {
 					}
 				default:
 					ns.Env[call] = AV{K: KTuple, Tup: o.results}
+				}
+				for i, tg := range o.tags {
+					if tg == nil {
+						continue
+					}
+					if len(o.tags) == 1 {
+						ns.G.Cells[resKey(call, -1)] = *tg
+					} else {
+						ns.G.Cells[resKey(call, i)] = *tg
+					}
 				}
 				// fallible steps: boolean result of a dir mutator
 				t.tagStep(ns, call, callee, args)
